@@ -55,6 +55,8 @@ type Config struct {
 	Registers []string
 	Counters  []string
 	Store     func() corekv.TxnStore // nil = vkv
+	// TimeTravel makes the oracle query the document at every merged commit (C03, branching histories).
+	TimeTravel bool
 }
 
 type IndexSpec struct {
